@@ -1074,7 +1074,7 @@ func Run(c *vh.Ctx) {
 		}
 	}()
 	if len(c.ReplayRaw) > 0 {
-		if r.replayChain(c.ReplayRaw) || r.replayProp(c.ReplayRaw) {
+		if r.replayChain(c.ReplayRaw) || r.replayProp(c.ReplayRaw) || r.replayName(c.ReplayRaw) {
 			return
 		}
 		var cs Case
@@ -1266,6 +1266,9 @@ func Run(c *vh.Ctx) {
 
 	// inherited property defaults over linear chains of up to 5 classes (complete)
 	r.runProps()
+
+	// near-miss names of every special name the deciders know (complete over forms x kinds x relatedness)
+	r.runNames()
 
 	// 3. known stream: the recorded deviations must still be the recorded ones
 	knownCases := []Hier{
